@@ -14,7 +14,7 @@ Oracle (independent of the model): no exception leaves serviceAll / serviceRespo
      connection is closed, answered or still waiting; the client has recorded a response (maybe errored) or waits."""
 import collections, itertools, contextlib, io
 import core
-from props import c29
+from props import c29, c33
 
 hx, unhx = c29.hx, c29.unhx
 
@@ -307,10 +307,17 @@ class CHECK(core.Check):
                "replays/C32-D32b-unpatched.json); D32c, D32d, D32e (committed; families: odd host names in "
                "Location, json nested beyond the recursion limit, percent-encoded delimiters in request targets; replays on "
                "the old tree: replays/C32-D32c/d/e-unpatched.json)"]
-    PARTIAL = ["responses with Content-Type text/event-stream and request targets with bracketed / non-ASCII netloc are "
-               "outside the model (explicit outcome 'unmodelled'); the oracle still checks them on the real code",
-               "C32_serviceReqs_isolated is about the model of the Valet's connection table (one association list for "
-               "reqs / reps / ixes, application answering at once); timeouts, cutoff detection and TLS are not modelled"]
+    PARTIAL = ["text/event-stream responses ARE in the model now (Respondent's event source = Model/Sse.lean, body shared with "
+               "it, events / retry / leid compared); still explicitly outside ('unmodelled'): a retry field with non-ASCII "
+               "text inside an event stream, and request targets with bracketed / non-ASCII netloc — the oracle still "
+               "checks them on the real code",
+               "C32_serviceReqs_isolated / C32_porter_isolated are about the model of the connection tables (one association "
+               "list for reqs / reps / ixes, application answering at once); timeouts, cutoff detection, TLS and the redirect "
+               "logic (C34) are not modelled; redirect cases are judged by the oracle only",
+               "sequences of responses on one reused Respondent in which an event-stream response is followed by responses "
+               "without Content-Type need fixes/D32f-respondent-evented-per-message.patch (reported defect: RuntimeError "
+               "out of serviceAll, replay replays/C32-D32f-unpatched.json); that family is detected-and-skipped with a NOTE "
+               "until the patch is in the tree"]
     TECHNIQUE = ("Lean 4 theorems (safety invariant 'nothing escaped parse()' kept by every step of the parser state "
                  "machine on arbitrary bytes; fold over the connection table equals a per-connection map) + "
                  "differential correspondence against the real Valet / Patron with socket doubles")
@@ -338,6 +345,56 @@ class CHECK(core.Check):
 
     def extra_evidence(self):
         return {"outside_model_cases_checked_by_oracle_only": self.unmodelled}
+
+    # ---- event-stream responses: in the model since the Respondent's event source is Model/Sse.lean
+    SSE_BODIES = [b"data: a\n\n", b"id: 1\ndata: one\r\ndata: two\r\n\r\nretry: 7\rdata: x\n\n", b"retry: 0\nid\ndata: q\n\n",
+                  b"data: \xff\n\n", b"\xff\xfe: x\n", b"data: ok\n\nd\xe9: y\n\ndata: later\n\n", b"data: unterminated",
+                  b"data: " + b"x" * 80 + b"\n\n", b"", b"\n\n\n", b":comment\n\n"]
+
+    def _sse_stream(self, rng, body=None, framing=None):
+        if body is None:
+            body = rng.choice(self.SSE_BODIES) if rng.random() < 0.5 else c33.CHECK()._wellformed(rng)[0]
+        framing = framing or rng.choice(["chunked", "chunked", "close", "length"])
+        if framing == "length":
+            return c33.HTTP_HEAD + b"Content-Length: %d\r\n\r\n" % len(body) + body, False
+        cc = sorted(rng.sample(range(len(body) + 1), min(len(body) + 1, rng.choice([0, 1, 2, 4])))) if framing == "chunked" else []
+        return c33.http_wrap(body, framing, cc)[0], framing == "close"
+
+    def _sse_cases(self, rng, body=None, framing=None, maxline=65536):
+        stream, close = self._sse_stream(rng, body, framing)
+        k = rng.choice([0, 1, 2, 3])
+        cuts = sorted(rng.sample(range(len(stream) + 1), min(k, len(stream) + 1)))
+        yield {"type": "parser", "kind": "rsp", "method": "GET", "max": maxline, "stream": hx(stream), "rest": "-",
+               "cuts": cuts, "close": close, "next": False, "hv": "sse"}
+        ops = ["f" + hx(p) for p in c29.pieces_of(stream, cuts)] + (["c"] if close else [])
+        yield {"type": "client", "method": "GET", "max": maxline, "ops": ops, "hv": "sse"}
+
+    _d32f = None
+
+    def _has_d32f(self):
+        """is fixes/D32f-respondent-evented-per-message.patch in the tree under test?  (reported defect of the unchanged
+        code, replay replays/C32-D32f-unpatched.json; its family of response sequences runs once the fix is there)"""
+        if CHECK._d32f is None:
+            CHECK._d32f = "escaped=~" in self.p29.impl(self._sse_sequence(0, 0))[0]
+            if not CHECK._d32f:
+                print("NOTE property=C32 fixes/D32f-respondent-evented-per-message.patch not applied: "
+                      "its case family is skipped in this run")
+        return CHECK._d32f
+
+    SEQ2 = [b"HTTP/1.1 200 OK\r\n\r\nd:\xff\n",        # read until close: nothing is left in the buffer when it fails
+            b"HTTP/1.1 200 OK\r\nTransfer-Encoding: chunked\r\n\r\n4\r\nd:\xff\n\r\n0\r\n\r\n",
+            b"HTTP/1.1 200 OK\r\nTransfer-Encoding: chunked\r\n\r\n8\r\ndata:y\n\n\r\n0\r\n\r\n",
+            b"HTTP/1.1 200 OK\r\nContent-Type: text/plain\r\nContent-Length: 2\r\n\r\nhi",
+            b"HTTP/1.1 200 OK\r\nContent-Type: text/event-stream\r\nTransfer-Encoding: chunked\r\n\r\n4\r\nd:\xff\n\r\n0\r\n\r\n"]
+    SEQ3 = [b"HTTP/1.1 200 OK\r\nTransfer-Encoding: chunked\r\n\r\n2\r\nhi\r\n0\r\n\r\n",
+            b"HTTP/1.0 200 OK\r\n\r\nbody"]
+
+    def _sse_sequence(self, i, j):
+        """an event-stream response, then responses without / with another Content-Type on the same (reused) parser"""
+        m1 = c33.http_wrap(b"data: x\n\n", "chunked", [3])[0]
+        ops = ["f" + hx(m1), "m", "f" + hx(self.SEQ2[i]), "m", "f" + hx(self.SEQ3[j])] + (["c", "p"] if j == 1 else [])
+        return {"type": "parser", "kind": "rsp", "method": "GET", "max": 65536, "history": ops, "h2": len(ops), "stream": "-",
+                "rest": "-", "cuts": [], "close": False, "next": False, "hv": "sse-sequence"}
 
     def _porter_case(self, rng, bad):
         c = self._server_case(rng, bad=bad, cut=None)
@@ -447,6 +504,15 @@ class CHECK(core.Check):
                 c = self._porter_case(rng, stream)
                 c["hv"] = label
                 yield c
+        for body in self.SSE_BODIES:      # event-stream responses, sound and damaged, every framing, also a short line limit
+            for framing in ("chunked", "close", "length"):
+                for mx in (65536, 32):
+                    for c in self._sse_cases(rng, body=body, framing=framing, maxline=mx):
+                        yield c
+        if self._has_d32f():
+            for i in range(len(self.SEQ2)):
+                for j in range(len(self.SEQ3)):
+                    yield self._sse_sequence(i, j)
         if True:         # odd host names in Location
             for label, stream in redirect_streams(ODD_HOSTS):
                 yield {"type": "client", "method": "GET", "max": 65536, "redirectable": True, "oracle_only": True, "hv": label,
@@ -477,7 +543,10 @@ class CHECK(core.Check):
     def generate(self, rng, n, tier):
         for i in range(n):
             r = rng.random()
-            if r < 0.1:
+            if r < 0.06:
+                for c in self._sse_cases(rng, maxline=rng.choice([65536, 65536, 24])):
+                    yield c
+            elif r < 0.14:
                 bad = self._damaged(rng, "req")
                 while self.p29._outside("req", bad):
                     bad = self._damaged(rng, "req")
